@@ -79,6 +79,50 @@ pub fn run(case: &Value) -> Value {
            "ms": t0.elapsed().as_millis() as u64})
 }
 
+/// Like bvh::run_main, but every case runs in its own thread (8 MiB stack, as the main thread) under a watchdog:
+/// a case that does not return within HANG_SECS is reported as {"hang": secs} and the process exits (the driver
+/// re-runs the remaining cases of the shard one by one).
+const HANG_SECS: u64 = 40;
+
 fn main() {
-    bvh::run_main(run);
+    use std::io::{BufRead, Write};
+    std::panic::set_hook(Box::new(|_| {}));
+    let stdin = std::io::stdin();
+    for line in stdin.lock().lines() {
+        let Ok(line) = line else { break };
+        if line.trim().is_empty() {
+            continue;
+        }
+        let case: Value = match serde_json::from_str(&line) {
+            Ok(v) => v,
+            Err(e) => {
+                println!("{}", json!({"error": format!("bad json: {e}")}));
+                continue;
+            }
+        };
+        let (tx, rx) = std::sync::mpsc::channel();
+        let worker = std::thread::Builder::new()
+            .stack_size(8 << 20)
+            .spawn(move || {
+                let out = match std::panic::catch_unwind(std::panic::AssertUnwindSafe(|| run(&case))) {
+                    Ok(v) => v,
+                    Err(e) => json!({"panic": bvh::panic_message(&*e)}),
+                };
+                let _ = tx.send(out);
+            })
+            .unwrap();
+        let out = match rx.recv_timeout(std::time::Duration::from_secs(HANG_SECS)) {
+            Ok(v) => v,
+            Err(_) => {
+                println!("{}", json!({"hang": HANG_SECS}));
+                let _ = std::io::stdout().flush();
+                std::process::exit(3);
+            }
+        };
+        let _ = worker.join();
+        let stdout = std::io::stdout();
+        let mut o = stdout.lock();
+        let _ = writeln!(o, "{out}");
+        let _ = o.flush();
+    }
 }
